@@ -136,6 +136,7 @@ class P_pdb(StructureParser):
             scaleU = numpy.zeros(3, dtype=float)
             p_nl = 0
             last_atom = None
+            sc = None
             for line in lines:
                 p_nl += 1
                 # skip blank lines
@@ -165,6 +166,9 @@ class P_pdb(StructureParser):
                     sc = numpy.zeros((3, 3), dtype=float)
                     sc[0, :] = [float(x) for x in line[10:40].split()]
                     scaleU[0] = float(line[45:55])
+                elif record in ("SCALE2", "SCALE3") and sc is None:
+                    emsg = "%d: %s record without preceding SCALE1 record" % (p_nl, record)
+                    raise StructureFormatError(emsg)
                 elif record == "SCALE2":
                     sc[1, :] = [float(x) for x in line[10:40].split()]
                     scaleU[1] = float(line[45:55])
